@@ -77,7 +77,8 @@ Definition quiet_state (x : State) : Prop :=
 
 Inductive cstep (c : cfg) (s : tst) (m : bytes) (o : outcome) (s' : tst) (out0 : out) : Prop :=
 | cs_none : out0 = [] -> t_state s' = t_state s -> (s' = s \/ quiet_state (t_state s)) -> cstep c s m o s' out0
-| cs_early : o = OOk -> out0 = [] -> t_state s' <> CLIENT_EXPECT_FINISHED -> t_state s' <> CLIENT_POST_HANDSHAKE ->
+| cs_early : o = OOk -> out0 = [] -> t_state s <> CLIENT_POST_HANDSHAKE ->
+             t_state s' <> CLIENT_EXPECT_FINISHED -> t_state s' <> CLIENT_POST_HANDSHAKE ->
              cstep c s m o s' out0
 | cs_ee_resumed : o = OOk -> out0 = [] -> t_state s = CLIENT_EXPECT_ENCRYPTED_EXTENSIONS ->
                   t_state s' = CLIENT_EXPECT_FINISHED -> t_resumed s' = true -> cstep c s m o s' out0
@@ -120,7 +121,7 @@ Proof.
     destruct (if o_decode O g pk =? 1 then find_priv g (f_privs c) None else None) as [priv |];
       [| inversion H; subst; apply cs_none; fields; auto].
     destruct (o_dh O g priv pk) as [shared |]; [| inversion H; subst; apply cs_none; fields; auto].
-    inversion H; subst o s' out0; clear H. apply cs_early; fields; auto; discriminate.
+    inversion H; subst o s' out0; clear H. apply cs_early; fields; rewrite ?Es; auto; discriminate.
   - (* EncryptedExtensions *)
     unfold client_handle_encrypted_extensions in H.
     apply with_parse_inv2 in H. destruct H as [(v & _ & H) | (-> & _ & ->)]; [| apply cs_none; auto].
@@ -130,23 +131,23 @@ Proof.
     inversion H; subst o s' out0; clear H.
     destruct (t_resumed s) eqn:Er.
     + apply cs_ee_resumed; fields; auto.
-    + apply cs_early; fields; auto; discriminate.
+    + apply cs_early; fields; rewrite ?Es; auto; discriminate.
   - (* Certificate *)
     unfold client_handle_certificate in H.
     apply with_parse_inv2 in H. destruct H as [(v & _ & H) | (-> & _ & ->)]; [| apply cs_none; auto].
     assert (Q : quiet_state (t_state s)) by (rewrite Es; apply quiet_of; discriminate).
     apply with_parse_inv2 in H. destruct H as [(s2 & Hset & H) | (-> & _ & ->)]; [| apply cs_none; fields; auto].
-    inversion H; subst o s' out0; clear H. apply cs_early; fields; auto; discriminate.
+    inversion H; subst o s' out0; clear H. apply cs_early; fields; rewrite ?Es; auto; discriminate.
   - (* CertificateRequest *)
     unfold client_handle_certificate_request in H.
     apply with_parse_inv2 in H. destruct H as [(v & _ & H) | (-> & _ & ->)]; [| apply cs_none; auto].
-    inversion H; subst o s' out0; clear H. apply cs_early; fields; auto; discriminate.
+    inversion H; subst o s' out0; clear H. apply cs_early; fields; rewrite ?Es; auto; discriminate.
   - (* Certificate (after a request) *)
     unfold client_handle_certificate in H.
     apply with_parse_inv2 in H. destruct H as [(v & _ & H) | (-> & _ & ->)]; [| apply cs_none; auto].
     assert (Q : quiet_state (t_state s)) by (rewrite Es; apply quiet_of; discriminate).
     apply with_parse_inv2 in H. destruct H as [(s2 & Hset & H) | (-> & _ & ->)]; [| apply cs_none; fields; auto].
-    inversion H; subst o s' out0; clear H. apply cs_early; fields; auto; discriminate.
+    inversion H; subst o s' out0; clear H. apply cs_early; fields; rewrite ?Es; auto; discriminate.
   - (* CertificateVerify *)
     pose proof H as H0.
     unfold client_handle_certificate_verify in H.
